@@ -185,6 +185,18 @@ CHECKS = {
 }
 
 CHECKS_EXTRA = {
+    "C19": ("bounded-exhaustive exploration: input snapshots over the container-valued product space, explicit enumeration "
+            "of instantiate / mutate histories on declarations with mutable defaults, and all ordered call sequences on "
+            "shared types compared with fresh types",
+            "(a) ~330 declarations x call forms x 5 option sets x every mutable-container input (alphabet + type-directed): "
+            "the deep snapshot of the input is identical before and after the call. (b) 7 declaration kinds x 6 mutable "
+            "defaults x every history of length <= 4 / 5 over {new result, mutate first / last result at every nesting "
+            "level}: untouched results, the declared default object and a fresh result keep the declared value. (c) every "
+            "ordered pair / triple of 9 call kinds (successful, failing, collecting, union reaching its last stage, union "
+            "failing all stages, function, exclude policy) on shared types: the last outcome equals its outcome on freshly "
+            "executed types.",
+            "Trusted: canon() snapshots; freshly exec'd modules (with typing's caches reset) as the baseline of (c).",
+            "DESIGN.md §3 C19"),
     "C18": ("bounded-exhaustive enumeration of (recursive declaration, max_depth, nested input) against a reference depth walk, "
             "plus exact work counts from a counting leaf converter against a polynomial bound",
             "9 ways of declaring recursion (Optional / plain / List / Tuple / Dict / Union / logical | / mutual recursion / "
